@@ -5,6 +5,7 @@ import re
 from ..index import AnalysisError, attr_chain, norm, own_nodes
 from ..query import calls_in, call_name, is_value_yield, lines, assigns
 from ..flow import reaching_defs
+from .common import borrowed
 from .common import (TLSCONN, TLSREC, RECLAYER, nodes_with_call, consumes_of, dead_edge_labels,
                      must_pass, senderror_desc, rule_consume)
 from . import c15, c17, c02
@@ -1124,3 +1125,49 @@ def rule_presence(ctx):
 
 
 RULES.insert(6, ("C08.PRESENCE", "quick", rule_presence))
+
+
+# ----------------------------------------------------------------- CONTENT-TYPES
+def rule_content_types(ctx):
+    """CONTENT-TYPES: the table of record content types the record layer lets through
+    (ContentType.all) agrees with what _getNextRecord can route: every listed type is either passed
+    through unconditionally or has a framing registered with the Defragmenter; a listed type with
+    neither reaches Defragmenter.add_data, which raises ValueError for unknown types."""
+    R = "C08.CONTENT-TYPES"
+    from ..consteval import ClassEval
+    ct = ClassEval(ctx.index.cls("constants:ContentType").node, what="constants.ContentType").own
+    allv = ct.get("all")
+    if not isinstance(allv, (tuple, list)) or not allv:
+        raise AnalysisError("C08.CONTENT-TYPES: ContentType.all not evaluable")
+    names = {k: v for k, v in ct.items() if isinstance(v, int)}
+    fi = ctx.index.func(TLSREC + "_getNextRecord")
+    passed = set()
+    for t in own_nodes(fi.node):
+        if not isinstance(t, ast.If):
+            continue
+        disj = t.test.values if isinstance(t.test, ast.BoolOp) and isinstance(t.test.op, ast.Or) else [t.test]
+        for dj in disj:
+            if isinstance(dj, ast.Compare) and norm(dj.left) == "header.type" and isinstance(dj.ops[0], ast.Eq):
+                c = attr_chain(dj.comparators[0]) or ""
+                if c.startswith("ContentType.") and c.split(".")[1] in names:
+                    passed.add(names[c.split(".")[1]])
+    init = ctx.index.func(TLSREC + "__init__")
+    framed = set()
+    for c in calls_in(init.node):
+        if call_name(c) in ("add_static_size", "add_dynamic_size") and c.args:
+            a = attr_chain(c.args[0]) or ""
+            if a.startswith("ContentType.") and a.split(".")[1] in names:
+                framed.add(names[a.split(".")[1]])
+    ctx.require(len(passed) >= 2 and len(framed) >= 3, "C08.CONTENT-TYPES: routes of _getNextRecord not recognised")
+    for v in allv:
+        ctx.check(R, v in passed or v in framed, "constants:ContentType", "content type %r has a route" % (v,),
+                  "ContentType.all lists %r, which _getNextRecord neither passes through nor has a Defragmenter "
+                  "framing for: a record of that type gets past the unknown-type alert and makes "
+                  "Defragmenter.add_data raise ValueError (no alert, undocumented exception)" % (v,),
+                  ctx.index.cls("constants:ContentType").loc() if hasattr(ctx.index.cls("constants:ContentType"), "loc") else "tlslite/constants.py")
+
+
+RULES.insert(9, ("C08.CONTENT-TYPES", "quick", rule_content_types))
+
+
+RULES.append(("C08.KEYTYPE", "quick", borrowed("c05", "rule_scheme", "C05.", "C08.")))
